@@ -122,14 +122,17 @@ def specPOf (s : FState) (ws : List String) : Option (Forest × Forest × Bool) 
 
 def handleFspec (s : FState) (ws : List String) : Option String :=
   match ws with
-  -- at the recorded defect (`selfMerge`) the model's own result is shown instead of the
-  -- specification's: the deviation is reported by the harness oracle on the implementation
+  -- since xot c33de0a the specification is shown in the corner `selfMerge` too (the third
+  -- component only tells the harness statistics that the corner was hit: `specpc`)
   | "specp" :: rest => do
-      let (sp, md, dfct) ← specPOf s rest
-      some (contentDump s (if dfct then md else sp))
+      let (sp, _, _) ← specPOf s rest
+      some (contentDump s sp)
   | "specpx" :: rest => do
-      let (sp, md, dfct) ← specPOf s rest
-      some (if dfct || rawDump sp == rawDump md then "1" else "0")
+      let (sp, md, _) ← specPOf s rest
+      some (if rawDump sp == rawDump md then "1" else "0")
+  | "specpc" :: rest => do
+      let (_, _, corner) ← specPOf s rest
+      some (if corner then "1" else "0")
   | "spec" :: rest => do
       let (sp, _) ← specOf s rest false
       some (contentDump s sp)
